@@ -1816,7 +1816,9 @@ class Mps(MatrixProduct):
 
     
     def add(self, other):
-        if not np.allclose(self.coeff, other.coeff):
+        # exact comparison: prefactors that merely agree to np.allclose's default tolerance (1e-5)
+        # must be folded into the tensors, otherwise the sum is wrong by that relative amount
+        if self.coeff != other.coeff:
             self.scale(self.coeff, inplace=True)
             other.scale(other.coeff, inplace=True)
             self.coeff = 1
